@@ -206,7 +206,7 @@ func c15Run(c *vf.Case, msgs []wsMsg, events []wsEvent, k int, mut c15Mutant, wi
 
 func runC15(c *vf.Case) {
 	r := c.Rng
-	maxSize := []int{200, 1000, 70000}[r.Intn(3)]
+	maxSize := []int{64, 100, 200, 1000, 70000}[r.Intn(5)] // (control payloads of the conforming part stay <= 40)
 	nm := r.Range(1, 6)
 	var msgs []wsMsg
 	for i := 0; i < nm; i++ {
@@ -217,6 +217,13 @@ func runC15(c *vf.Case) {
 		msgs = append(msgs, wsMsg{Text: r.Bool(), Payload: asciiBytes(r, n)})
 	}
 	events, _ := wsFragment(r, msgs, 4, 40)
+	for i := range events {
+		// the library applies the configured maximum to every frame, control frames included: the conforming part of
+		// the stream respects it
+		if events[i].Control && len(events[i].F.Payload) > maxSize {
+			events[i].F.Payload = events[i].F.Payload[:maxSize]
+		}
+	}
 	k := r.Intn(len(events))
 	e := &events[k]
 	inProgress := false // is a message in progress just before frame k?
@@ -229,8 +236,16 @@ func runC15(c *vf.Case) {
 	var classes []string
 	if e.Control {
 		classes = []string{"rsv", "masked", "control-fin0", "control-126", "control-reserved-opcode"}
+		if maxSize < 200 {
+			// a control frame of 126-180 bytes would also be over the configured maximum: which of the two rejections
+			// applies is not prescribed, so that mutation is only used where the maximum admits the frame
+			classes = []string{"rsv", "masked", "control-fin0", "control-reserved-opcode"}
+		}
 	} else {
 		classes = []string{"rsv", "masked", "data-reserved-opcode", "frame-over-max-16", "frame-over-max-64"}
+		if maxSize < 125 {
+			classes = append(classes, "frame-over-max-7", "frame-over-max-7") // over the maximum within the 7-bit length form
+		}
 		if inProgress {
 			classes = append(classes, "data-opcode-mid-message", "message-over-max")
 		} else {
@@ -273,6 +288,8 @@ func runC15(c *vf.Case) {
 	case "data-opcode-mid-message":
 		e.F.Opcode = byte(r.Range(1, 2))
 		mut.msgOnly = true
+	case "frame-over-max-7":
+		e.F.Payload = r.Bytes(r.Range(maxSize+1, 125))
 	case "frame-over-max-16":
 		if maxSize >= 65535 {
 			maxSize = 1000
@@ -369,7 +386,7 @@ func init() {
 	register(&vf.Check{
 		ID:        "C15",
 		Technique: "runtime monitor with single-violation mutants of wsref-generated conforming streams read through all four APIs on a scripted transport; the monitor knows position and class and checks error reporting, non-delivery, Close(1002) on the wire and refusal of writes",
-		Rule: "cases = conforming stream (1-6 messages, 1-4 fragments, ping/pong in between) with exactly one mutation from {RSV bit; masked server frame; control frame FIN=0; control frame with 126-180 payload bytes; reserved opcode 3-7 / 11-15; continuation with no message in progress; data opcode inside a fragmented message; frame over max (16- and 64-bit encodings); fragments summing over max} at a random position x segmentation (every cut offset for streams <= 250 bytes, else random cuts plus one inside the mutant's header) x 4 read APIs x inline/deferred; " +
+		Rule: "cases = conforming stream (1-6 messages, 1-4 fragments, ping/pong in between) with exactly one mutation from {RSV bit; masked server frame; control frame FIN=0; control frame with 126-180 payload bytes; reserved opcode 3-7 / 11-15; continuation with no message in progress; data opcode inside a fragmented message; frame over max (7-, 16- and 64-bit length encodings; max in {64,100,200,1000,70000}); fragments summing over max} at a random position x segmentation (every cut offset for streams <= 250 bytes, else random cuts plus one inside the mutant's header) x 4 read APIs x inline/deferred; " +
 			"every case is non-trivial; distinct = (class, position kind, segmentation set size)",
 		Assumptions: []string{
 			"which error value is returned is not prescribed; only an error at the read that reaches the violating frame",
